@@ -23,8 +23,7 @@ P = {
                  "C13_F4_pinned_refuted", "C13_F4_pinned_refuted_view", "C13_F6_pinned_refuted", "C13_F7_pinned_refuted",
                  "C13_F3b_refuted", "C13_F5_refuted", "C13_F5_refuted_handover", "C13_F8_refuted", "C13_F9_pinned_refuted", "C13_F11_pinned_refuted",
                  "C13_nonvacuous", "C13_nonvacuous_pinned", "C13_nonvacuous_redirect",
-                 "C13_deployed_decision_same_url", "C13_deployed_decision_same_url_repo", "C13_F10_pinned_refuted",
-                 "C13_body_reads_stable", "C13_body_reads_agree"],
+                 "C13_deployed_decision_same_url", "C13_deployed_decision_same_url_repo", "C13_F10_pinned_refuted"],
     "streams": [{
         "name": "entrypoints", "pkg": "./internal/zzverif/c13", "test": "TestVerifC13",
         "overlay": dict(ASSEMBLY_OVERLAY, **{"internal/zzverif/c13/c13_test.go": "c13/c13_test.go"}),
@@ -61,24 +60,26 @@ P = {
             "sets; requests are aimed at the rule's conditions in 60%.  Per request the Envoy conveyance is drawn: body in `body` "
             "(Envoy's default) / `raw_body` / both; on the HTTP side sized (Content-Length) or streamed (Transfer-Encoding: chunked); "
             "request target as documented (query inside `path`, `query` empty) or in separate "
-            "fields.  The same request goes to all three entry points.  Corpus (35 cases: witnesses of C13-F1..F9, F11, F3b, of the "
-            "seeded change C13-1 and of the audit's blind spots) first.  Stream deployed: one logical request (method, scheme, host, "
+            "fields.  The same request goes to all three entry points.  Corpus (36 cases: witnesses of C13-F1..F9, F11, F3b - the only input "
+            "on which guard F3b fires, the generator draws no blank-padded values -, of the seeded changes C13-1 and C13-3 and of the "
+            "audit's blind spots) first.  Stream deployed: one logical request (method, scheme, host, "
             "path of 1-3 pool segments, one of 31 queries) sent to a decision service directly and, described by X-Forwarded-Method/"
-            "-Proto/-Host/-Uri from a trusted proxy, to a decision service with trusted_proxies; both echo method and URL parts.  "
+            "-Proto/-Host/-Uri from a trusted proxy, to a decision service with trusted_proxies; both echo method and URL parts; 5 corpus cases (the witnesses of C13-F10) first.  "
             "Stream interleaved: request 1 (body of one of 12 content-type/shape pairs) through each entry point with a rule whose "
             "pipeline reads the body, waits for a contextualizer endpoint (the driver's hook, which meanwhile sends a second request "
             "of the same shape with other values through decision, proxy or Envoy) and reads the body again; GOMAXPROCS(1).  "
             "Non-trivial = a rule matched and its pipeline reads the view in a condition or a template (stream 1) / the request has a "
-            "query (stream 2); distinct by hash of (rule, request).",
+            "query (stream 2) / every pair (stream 3); distinct by hash of (rule, request).",
     "anchors": ["internal/handler/requestcontext/request_context.go", "internal/handler/decision/request_context.go",
                 "internal/handler/proxy/request_context.go", "internal/handler/envoyextauth/grpcv3/request_context.go",
                 "internal/handler/envoyextauth/grpcv3/handler.go", "internal/heimdall/context.go",
                 "internal/rules/repository_impl.go", "internal/rules/rule_impl.go", "internal/rules/rule_executor_impl.go"],
     "trusted": [
-        "encoding of a logical request for Envoy (mk_envoy, in the driver and mirrored in the model): CheckRequest with path and query "
-        "in separate fields as heimdall's own gRPC tests build it (real Envoy puts the query into `path` and adds :authority/:path "
-        "pseudo headers - not modelled), lower-case header names, repeated header lines joined with ',' (cookie: '; '), the peer as "
-        "gRPC metadata x-forwarded-for",
+        "encoding of a logical request for Envoy (mk_envoy, in the driver and mirrored in the model): CheckRequest; request target "
+        "drawn per request: query inside `path` (Envoy's documented shape) or path and query in separate fields (as heimdall's own "
+        "gRPC tests build it); body in `body` / `raw_body` / both, drawn per request; Envoy's :authority/:path pseudo headers are "
+        "not modelled; lower-case header names, repeated header lines joined with ',' (cookie: '; '), the peer as gRPC metadata "
+        "x-forwarded-for",
         "oracles (observed per case, not modelled): the body decoders contenttype.NewDecoder/Decode (JSON, form, YAML) on (Content-Type, "
         "body) and (Content-Type, empty body), as JSON text; net/http's EscapedPath() of the request path (checked to equal the model's "
         "Base/GoUrl.v computation)",
@@ -108,7 +109,9 @@ P = {
                   "are not plain and sanitised cookie values on hand-over (C13-F5), Headers() read as a whole map (C13-F8: the key Host; "
                   "every other key is proved equal), blank-padded values of a header added twice (C13-F3b) - captures, header names, Host, "
                   "URL parts, the encoded-slash check, the body in either Envoy field and the query inside Envoy's `path` are unguarded; "
-                  "each open or repaired finding has a proved witness (differs without the repair, agrees with it, same request).  "
+                  "Decision and proxy share one Go type (requestcontext.RequestContext) and one model function: that they see the same view and "
+                  "decide alike is by construction of the model and checked by the runs only; proved are HTTP context vs Envoy context "
+                  "and the three Finalize.  Each open or repaired finding has a proved witness (differs without the repair, agrees with it, same request).  "
                   "Separately: conveyed through X-Forwarded-* by a trusted proxy (the decision service as deployed) a request gives the "
                   "same method, scheme, host, path and query as when received directly (no guard since fix: f446e16; the pinned "
                   "re-encoding of the query is kept as C13_F10_pinned_refuted).  Lemmas of independent use: Header(n) agrees for ALL names and header multisets; Headers() agree on every "
@@ -116,7 +119,8 @@ P = {
                   "plain.  The model is tied to the code by sending ~1100 (quick) / 24000 (thorough) generated requests per run to the "
                   "three real assembled applications loaded with generated rule sets, plus 300 / 6000 requests to two decision services "
                   "(direct / behind a trusted proxy) and 120 / 2000 interleaved request pairs (the body as the pipeline sees it before and after "
-                  "another request in flight read its body; theorem over all sequences of reads of requests in flight), and comparing "
+                  "another request in flight read its body: the model ASSUMES that the contexts of requests in flight share no state - "
+                  "each caches its own decoded body - and this stream is what tests that assumption, on one P), and comparing "
                   "with the model inside Coq; the property predicate (the observations "
                   "of the entry points are equal) is evaluated on the observations, never on the model.",
     "level_note": "Trusted: Coq kernel/vm_compute; the correspondence harness incl. the Envoy encoding of a request (lower-case header "
@@ -127,18 +131,28 @@ P = {
                   "decoders are oracles; rule lookup is an arbitrary function (C02/C03), in the run the match is known by construction; "
                   "CEL/text-template reduced to `read == const` and echo; the model-vs-code comparison looks at allowed/denied, not at "
                   "the status number of a denial (C12), the property comparison at the exact status.  FIXED (fix: commits, revert of "
-                  "each => VIOLATION): C13-F1 b2286d8, F2 7c3e9fc, F3 a5ef279, F4 ae6db4f, F6 06faa19, F7 19923cd.  OPEN with guards: "
-                  "F5, F8, F3b (no repair), F9 (fixes/C13-F9.diff), F11 (fixes/C13-F11.diff; the driver detects both repairs by "
-                  "sentinel requests), F10 (decision service behind a trusted proxy re-encodes the query; no repair offered).  The interleaved stream runs on one P (GOMAXPROCS(1)) so that sync.Pool reuse is "
-                  "deterministic; truly parallel requests are not exercised.  Not "
-                  "covered (see docs/notes/C13.md, After the audit): several Cookie lines, multi-hop client address lists, URL "
+                  "each => VIOLATION): C13-F1 b2286d8, F2 7c3e9fc, F3 a5ef279, F4 ae6db4f, F6 06faa19, F7 19923cd, F9 58408fc, F11 "
+                  "9fe653a, F10 f446e16.  OPEN with guards (no repair offered): F5, F8, F3b.  The evaluator expects the fully repaired "
+                  "variant (check_repo / check_tp_repo) whatever the driver's sentinels report.  In a quick run about 22 % of the "
+                  "entrypoints cases fall under an open guard (F8 18 %, F5 9 %; F3b is seen on its corpus case only); for these only the "
+                  "model-vs-code comparison counts.  The interleaved stream runs on one P (GOMAXPROCS(1)) so that sync.Pool reuse is "
+                  "deterministic; truly parallel requests are not exercised.  Clause -> theorem: same decision -> C13_same_decision, "
+                  "C13_slash_check_agrees_repo, C13_three_entry_points_agree(_repo); same rule and captures -> C13_same_lookup; same view "
+                  "-> C13_same_view with the header, Headers() and cookie theorems; same hand-over -> C13_same_upstream_headers.  Not "
+                  "covered by any theorem: decision vs proxy view and decision (one Go type, one model function: by construction, "
+                  "checked by the runs only); what holds inside guard F5 on the read side beyond plain_for; the status number of a "
+                  "denial (compared between the observations only); client headers/cookies passed through next to the pipeline's "
+                  "(C15).  Not covered at all (docs/notes/C13.md): several Cookie lines, multi-hop client address lists, URL "
                   "fragments, www_authenticate and other error handlers than redirect, the default rule, overlapping rules and "
-                  "backtracking, X-Forwarded-* next to pipeline headers and the upstream URL of the proxy (C15), regex/glob host "
+                  "backtracking, X-Forwarded-* as pipeline header names and the upstream URL of the proxy (C15), regex/glob host "
                   "conditions (C03).",
     "assumptions": [
         "a logical request is well-formed (wf_lreqb, checked on every case): header names are tokens, no Host/X-Forwarded-*/Forwarded "
         "line, values without surrounding blanks, at most one Cookie line, path starts with '/' and is validly percent-encoded",
-        "Envoy delivers the request as mk_envoy says (see trusted); real Envoy's pseudo headers and query-in-path are out of scope",
+        "Envoy delivers the request as mk_envoy says for one of the modelled conveyances (see trusted); Envoy's pseudo headers are "
+        "out of scope",
+        "an X-Forwarded-Uri that url.Parse rejects (used as received since d3f6cd7) is not modelled and not generated (C09/C15); "
+        "coq/C13/Http.v is a frozen copy of C09's extractURL model for requests that parse",
         "hosts are plain host[:port] values that url.URL.String() does not escape (the model of String() writes the host as it is)",
         "a client header / cookie that arrives at the upstream exactly as the client sent it counts as passed through, not as handed "
         "over by the pipeline (pass-through is C15's); everything else under a name the pipeline can set counts, so a pipeline value "
